@@ -39,8 +39,8 @@ type C10Deadline struct {
 }
 
 // afterHeaderFaults: faults after the header of a frame (or in a later chunk of an oversized
-// payload). The tree as given went on after such a failure although a partial frame was on the
-// wire (D18, fixed); the shape is generated unless switched off.
+// payload). The multiplexer has to fail as a whole then (D18, fixed in 77509ba; the shape can
+// be switched off with VERIF_MUX_AFTER_HEADER_FAULTS=0 or a known-finding entry).
 func afterHeaderFaults() bool {
 	return os.Getenv("VERIF_MUX_AFTER_HEADER_FAULTS") != "0" && !ev.Known("write-fault-after-header")
 }
